@@ -57,6 +57,19 @@ IsLeaf(v)  == ~IsWrap(v) /\ ~IsMulti(v)
 
 \* Types that only expose Cause(), invisible to the standard library.
 CauseOnlyTy == {"uWrapC"}
+\* Wrapper types without a Cause() method, invisible to pkg/errors.Cause.
+NoCauseTy == {"goWrapError", "osPathError", "osLinkError", "osSyscallError", "netOpError", "uWrapU", "uWrapFull",
+              "uAnnotWrap", "uKeyWrap", "uMaybe"}
+
+\* flags aligned with AllNodes(v): the node is reachable by the standard library's
+\* traversal (Unwrap methods only) and comparable with ==
+RECURSIVE StdVisFlags(_, _)
+RECURSIVE StdVisFlagsSeq(_, _)
+StdVisFlagsSeq(vs, vis) == IF vs = <<>> THEN <<>> ELSE StdVisFlags(vs[1], vis) \o StdVisFlagsSeq(Tail(vs), vis)
+StdVisFlags(v, vis) ==
+  IF IsNil(v) THEN <<>>
+  ELSE <<vis /\ v.ty # "uValLeaf">> \o StdVisFlagsSeq(v.kids, vis /\ v.ty \notin CauseOnlyTy)
+       \o StdVisFlagsSeq(v.hid, FALSE)
 
 ---------------------------------------------------------------------------
 (* Error() text.                                                           *)
